@@ -37,9 +37,9 @@ def run(tier, seed):
     base = {'prop': PROP, 'types': TYPES, 'P': 10, 'scale_range': (-27, 29.8), 'max_offset_exp': 12,
             'maxlen': 200, 'long_prob': 0.005}
     if tier == 'quick':
-        nseq, variants, mult = 420, [('release', 1.0), ('dev', 0.3), ('std', 0.2), ('plain', 0.2)], 1
+        nseq, variants, mult = 420, [('release', 1.0), ('dev', 0.3), ('std', 0.2), ('plain', 0.2), ('bare', 0.2)], 1
     else:
-        nseq, variants, mult = 20000, [('release', 1.0), ('dev', 0.15), ('std', 0.15), ('plain', 0.15)], 8
+        nseq, variants, mult = 20000, [('release', 1.0), ('dev', 0.15), ('std', 0.15), ('plain', 0.15), ('bare', 0.1)], 8
     total = Result()
     try:
         for variant, frac in variants:
@@ -67,13 +67,13 @@ def run(tier, seed):
                 total.merge(lres)
                 # sample sizes beyond 2^32 / 2^53 (self-merging), then single adds: the add path with a huge n
                 import bigcount
-                bc = [(t, ka, kb) for t in ('Moments4', 'M4', 'M5', 'M6', 'M7', 'M8', 'M9', 'M10') for ka, kb in [(16, 16), (32, 32), (33, 0), (40, 20), (53, 0), (54, 54)]]
+                bc = [(t, ka, kb) for t in ('Moments4', 'M4', 'M5', 'M6', 'M7', 'M8', 'M9', 'M10') for ka, kb in [(16, 16), (32, 32), (33, 0), (40, 20), (53, 0), (54, 54), (62, 62)]]
                 bdescs = [{'name': 'b%s%d' % (variant[0], s), 'variant': variant, 'binary': binary, 'work': bc[s::8], 'prop': PROP,
                            'only': dict(TYPES), 'seed': seed * 7 + s} for s in range(8)]
                 total.merge(common.run_shards(bigcount.shard, bdescs))
     except common.Inconclusive as e:
         total.inconclusive.append(str(e))
-    need = {'long_small_magnitude_cases': 12, 'nontrivial_states': 1000, 'bigcount_states_above_2^32': 50, 'bigcount_states_above_2^53': 20}
+    need = {'long_small_magnitude_cases': 12, 'nontrivial_states': 1000, 'bigcount_states_above_2^32': 50, 'bigcount_states_above_2^53': 20, 'bigcount_states_from_2^63': 8}
     for t, _ in TYPES:
         need['cases_%s' % t] = 50
     return common.finish(PROP, tier, seed, total, RULE, t0, ASSUME, min_events=need,
